@@ -60,7 +60,7 @@ pub broadcast axiom fn ax_eq(a: f64, b: f64)
 pub broadcast group f64_axioms {
     ax_class_excl, ax_add_req, ax_sub_req, ax_mul_req, ax_div_req, ax_obeys,
     ax_add_val, ax_sub_val, ax_mul_val, ax_div_val, ax_cmp, ax_eq,
-    ax_abs, ax_max, ax_sqrt, ax_neg, ax_sign_pos, ax_boxed_f64_len,
+    ax_abs, ax_max, ax_min, ax_sqrt, ax_neg, ax_sign_pos, ax_boxed_f64_len,
 }
 
 // T4: literals
@@ -115,6 +115,11 @@ pub uninterp spec fn max_spec(x: f64, y: f64) -> f64;
 pub assume_specification [f64::max] (x: f64, y: f64) -> (r: f64) ensures r == max_spec(x, y);
 pub broadcast axiom fn ax_max(x: f64, y: f64)
     ensures fin(x) && fin(y) ==> fin(#[trigger] max_spec(x, y)) && rv(max_spec(x, y)) == rmax(rv(x), rv(y));
+
+pub uninterp spec fn min_spec(x: f64, y: f64) -> f64;
+pub assume_specification [f64::min] (x: f64, y: f64) -> (r: f64) ensures r == min_spec(x, y);
+pub broadcast axiom fn ax_min(x: f64, y: f64)
+    ensures fin(x) && fin(y) ==> fin(#[trigger] min_spec(x, y)) && rv(min_spec(x, y)) == rmin(rv(x), rv(y));
 
 pub uninterp spec fn sqrt_spec(x: f64) -> f64;
 pub assume_specification [f64::sqrt] (x: f64) -> (r: f64) ensures r == sqrt_spec(x);
